@@ -179,6 +179,19 @@ func dirNext(c *Ctx, fn *ssa.Function) {
 		}
 		return 1
 	}
+	popHelpers := map[*ssa.Function]bool{}
+	isPop := func(call *ssa.Call) bool {
+		h := call.Call.StaticCallee()
+		if h == nil || call.Call.IsInvoke() || !c.P.isModuleFn(h) || len(h.Blocks) == 0 || len(call.Call.Args) != 1 || call.Call.Args[0] != ssa.Value(recv) {
+			return false
+		}
+		good, seen := popHelpers[h]
+		if !seen {
+			good = popFrontHelper(h)
+			popHelpers[h] = good
+		}
+		return good
+	}
 	nPaths := 0
 	var problems []string
 	sawReturnValue, sawSkip, sawReturnNil := false, false, false
@@ -189,6 +202,7 @@ func dirNext(c *Ctx, fn *ssa.Function) {
 		var frontVal ssa.Value
 		failed, succeeded := map[*ssa.Call]bool{}, map[*ssa.Call]bool{}
 		var steps []*ssa.Call
+		var pops []*ssa.Call // calls of a validated "take the front name" helper on this path
 		for i, b := range path {
 			for _, in := range b.Instrs {
 				switch x := in.(type) {
@@ -221,6 +235,9 @@ func dirNext(c *Ctx, fn *ssa.Function) {
 					if errIndex(x) >= 0 || okIndex(x) >= 0 {
 						steps = append(steps, x)
 					}
+					if isPop(x) {
+						pops = append(pops, x)
+					}
 				}
 			}
 			var after *ssa.BasicBlock
@@ -232,6 +249,22 @@ func dirNext(c *Ctx, fn *ssa.Function) {
 					cond, val = un.X, !val
 				}
 				if ex, isEx := cond.(*ssa.Extract); isEx {
+					if cc, isCall := ex.Tuple.(*ssa.Call); isCall && isPop(cc) && ex.Index == 1 {
+						// the helper answers ok exactly when a name was left, and has then removed it
+						if val {
+							emptyTest = "false"
+							removals++
+							removed = true
+							frontReadsBeforeRemoval++
+							for _, r := range *cc.Referrers() {
+								if e0, isE0 := r.(*ssa.Extract); isE0 && e0.Index == 0 {
+									frontVal = e0
+								}
+							}
+						} else {
+							emptyTest = "true"
+						}
+					}
 					if cc, isCall := ex.Tuple.(*ssa.Call); isCall && errIndex(cc) < 0 && ex.Index == okIndex(cc) {
 						if val {
 							succeeded[cc] = true
@@ -402,6 +435,92 @@ func dirNext(c *Ctx, fn *ssa.Function) {
 		strings.Join(dedup(problems), "; "))
 	// G4: the loop is a consumer loop: every trip around it removes one element (established above) and it exits on empty
 	c.Check(len(problems) == 0, "G4", fname, "retry loop terminates", pos, "consumer loop: each iteration shortens the list by one, exit on empty", "loop variant (one removal per iteration, exit on empty) not established")
+}
+
+// popFrontHelper: h(src) (name, ok): loop-free; on the path where len(src.names) == 0 it answers ok == false and touches
+// nothing; on the other it reads names[0], stores names[1:] into the field (once) and answers (that name, true).
+func popFrontHelper(h *ssa.Function) bool {
+	if h.Signature.Results().Len() != 2 || len(h.Params) != 1 || len(naturalLoops(h)) > 0 {
+		return false
+	}
+	recv := h.Params[0]
+	okAll, sawEmpty, sawTake := true, false, false
+	enumPaths(h, func(path []*ssa.BasicBlock) {
+		empty := ""
+		removals := 0
+		var front ssa.Value
+		for i, b := range path {
+			for _, in := range b.Instrs {
+				switch x := in.(type) {
+				case *ssa.UnOp:
+					if ia, ok := x.X.(*ssa.IndexAddr); ok && x.Op == token.MUL && isLoadOfFileNames(ia.X, recv) {
+						if k, isC := constInt(ia.Index); isC && k == 0 && removals == 0 {
+							front = x
+						} else {
+							okAll = false
+						}
+					}
+				case *ssa.Store:
+					if isFileNamesAddr(x.Addr, recv) {
+						sl, ok := x.Val.(*ssa.Slice)
+						one := int64(-1)
+						if ok && sl.Low != nil {
+							one, _ = constInt(sl.Low)
+						}
+						if ok && isLoadOfFileNames(sl.X, recv) && one == 1 && sl.High == nil && sl.Max == nil {
+							removals++
+						} else {
+							okAll = false
+						}
+					}
+				case *ssa.Call:
+					if !isBuiltin(x, "len") {
+						okAll = false
+					}
+				}
+			}
+			if i+1 < len(path) {
+				if iff, isIf := b.Instrs[len(b.Instrs)-1].(*ssa.If); isIf {
+					if bo, isB := iff.Cond.(*ssa.BinOp); isB {
+						if lc, isCall := bo.X.(*ssa.Call); isCall && isBuiltin(lc, "len") && isLoadOfFileNames(lc.Call.Args[0], recv) {
+							if k, isC := constInt(bo.Y); isC && k == 0 && (bo.Op == token.EQL || bo.Op == token.NEQ) {
+								taken := b.Succs[0] == path[i+1]
+								if (bo.Op == token.EQL) == taken {
+									empty = "true"
+								} else {
+									empty = "false"
+								}
+							}
+						}
+					}
+				}
+			}
+		}
+		last := path[len(path)-1]
+		ret, isRet := last.Instrs[len(last.Instrs)-1].(*ssa.Return)
+		if !isRet || empty == "" {
+			okAll = false
+			return
+		}
+		flag, isC := ret.Results[1].(*ssa.Const)
+		if !isC {
+			okAll = false
+			return
+		}
+		fv, _ := constBool(flag)
+		if empty == "true" {
+			sawEmpty = true
+			if fv || removals != 0 {
+				okAll = false
+			}
+			return
+		}
+		sawTake = true
+		if !fv || removals != 1 || front == nil || ret.Results[0] != front {
+			okAll = false
+		}
+	})
+	return okAll && sawEmpty && sawTake
 }
 
 // readAndParseHelper: h(path) (msg, ok): every returned tuple has a constant ok; with ok == true the message is the
